@@ -26,6 +26,12 @@ CHECKS = {
         "partial": "that the model's whole response satisfies the protocol validator for every scenario is not a theorem yet",
         "assumptions": E2E_ASSUME,
     },
+    "C08": {
+        "module": "Vanguard.Props.C08", "namespace": "Vanguard.C08", "streams": ["chunk"],
+        "partial": "segmentation independence is proved for the primitive exact reader (io.ReadFull/CopyN over adversarial chunkings); "
+                   "for the whole adapters it is checked metamorphically on model and implementation",
+        "assumptions": E2E_ASSUME,
+    },
     "C11": {
         "module": "Vanguard.Props.C11", "namespace": "Vanguard.C11", "streams": ["e2e", "codes"],
         "partial": "panic-freedom is proved for every outcome-reporting path; for the writer/reader loops it is checked by correspondence; "
